@@ -10,7 +10,11 @@
  * "<tool>:<k>:exit" the k-th call exits with status 3 before doing anything;
  * "<tool>:<k>:signal" makes it kill itself with SIGKILL.  Every other call
  * execs the real tool ($C14_REAL_CC / $C14_REAL_AS / $C14_REAL_LD) with the
- * same arguments.  chibicc itself is not modified.
+ * same arguments.  "<tool>:<k>:noexec" makes the k-th call impossible to START: the
+ * call before it (the driver-role invocation for k = 1) removes <dir>/<tool> ($C14_NOEXEC =
+ * enoent) or replaces it by a file without x bits (eacces; root cannot execute that either), so the
+ * driver's execvp fails.  $C14_SHIMDIR names <dir> (a private copy for such a run).
+ * chibicc itself is not modified.
  */
 #include <fcntl.h>
 #include <signal.h>
@@ -19,6 +23,25 @@
 #include <string.h>
 #include <sys/stat.h>
 #include <unistd.h>
+
+/* make <dir>/<tool's file> impossible to execute if the fault plan says that the call after
+   the `done`-th one of that tool cannot be started */
+static void maybe_break(const char *done_tool, long done) {
+  const char *f = getenv("C14_FAULT"), *dir = getenv("C14_SHIMDIR"), *fl = getenv("C14_NOEXEC");
+  char ft[16], how[16], path[4096];
+  long fk;
+  if (!f || !dir || sscanf(f, "%15[^:]:%ld:%15s", ft, &fk, how) != 3 || strcmp(how, "noexec"))
+    return;
+  if (done_tool ? (strcmp(ft, done_tool) || fk != done + 1) : fk != 1)
+    return;
+  snprintf(path, sizeof path, "%s/%s", dir, !strcmp(ft, "cc1") ? "chibicc" : ft);
+  unlink(path);                                   /* (a hard link: the other runs keep theirs) */
+  if (fl && !strcmp(fl, "eacces")) {              /* present, but not executable */
+    int fd = open(path, O_WRONLY | O_CREAT | O_EXCL, 0644);
+    if (fd >= 0)
+      close(fd);
+  }
+}
 
 int main(int argc, char **argv) {
   const char *base = strrchr(argv[0], '/');
@@ -40,6 +63,7 @@ int main(int argc, char **argv) {
     if (!has) {
       /* started as the driver: become the real driver, but keep argv[0] = this shim, so that
          run_cc1() (which re-executes argv[0] with -cc1) starts the front end through the shim */
+      maybe_break(NULL, 0);
       if (real)
         execv(real, argv);
       fprintf(stderr, "c14_shim: cannot start the driver\n");
@@ -74,6 +98,7 @@ int main(int argc, char **argv) {
       _exit(3);
     }
   }
+  maybe_break(tool, k);
   argv[0] = (char *)real;
   execv(real, argv);
   fprintf(stderr, "c14_shim: exec %s failed\n", real);
